@@ -254,3 +254,43 @@ MODELS += [
     (r'<&*std::option::Option<.*> as ' + SER + r'Serialize>::serialize::<.*>', M_option_serialize),
     (r'<std::option::Option<.*> as ' + SER + r'Deserialize(<.*>)?>::deserialize::<.*>', M_option_deserialize),
 ]
+
+
+# ------------------------------------------------------------------ &'de str: serde's borrowed-string impl by contract
+def M_borrowed_str_deserialize(it, ctx, args, st):
+    """<&'de str as Deserialize>::deserialize::<D>(d) = d.deserialize_str(StrVisitor): only a string *borrowed from the input*
+    (visit_borrowed_str) is accepted; transient and owned strings are an invalid type"""
+    D = ctx.gargs[0]
+    yield from it.call(ctx.fr, f'<{ty_str(D)} as serde::Deserializer>::deserialize_str::<BorrowedStrVisitor>', [args[0], Agg('BorrowedStrVisitor', ())], st)
+
+
+def borrowed_str_visit(it, ctx, args, st):
+    meth = ctx.callee.method
+    if meth == 'visit_borrowed_str':
+        yield st, it.ok(args[1] if isinstance(args[1], Ptr) else st.ref(sval(st, args[1])))
+    else:
+        yield st, it.err(de_err('invalid_type', meth))
+
+
+for _m in ['visit_bool', 'visit_str', 'visit_string', 'visit_borrowed_str', 'visit_f32', 'visit_f64', 'visit_unit', 'visit_none', 'visit_some',
+           'visit_bytes', 'visit_byte_buf', 'visit_seq', 'visit_map', 'visit_char', 'visit_newtype_struct', 'visit_enum'] + \
+          [f'visit_{s}{w}' for s in 'iu' for w in (8, 16, 32, 64, 128)]:
+    TMODELS[('BorrowedStrVisitor', 'Visitor', _m)] = borrowed_str_visit
+
+
+# ---- harness deserializer delivering one string event in a chosen way: Agg('StrDeliver', (text, 'borrowed' | 'transient' | 'owned'))
+def T_strdeliver(it, ctx, args, st):
+    de, visitor = args
+    de = st.deref_all(de) if isinstance(de, Ptr) else de
+    V = ctx.gargs[0]
+    meth = {'borrowed': 'visit_borrowed_str', 'transient': 'visit_str', 'owned': 'visit_string'}[de.fields[1]]
+    a = de.fields[0] if meth == 'visit_string' else st.ref(de.fields[0])
+    yield from it.call_trait(ctx.fr, V, 'serde::de::Visitor', meth, [('path', 'DeError', ())], [visitor, a], st)
+
+
+for _m in ('deserialize_str', 'deserialize_string', 'deserialize_any', 'deserialize_identifier'):
+    TMODELS[('StrDeliver', 'Deserializer', _m)] = T_strdeliver
+
+MODELS += [
+    (r"<&(?:'\w+ )?str as " + SER + r'Deserialize(<.*>)?>::deserialize::<.*>', M_borrowed_str_deserialize),
+]
